@@ -352,3 +352,10 @@ Definition node_step (n : nstate) (i : ninput) (draws : list N) : res (nstate * 
   end.
 
 Definition init_node : nstate := mkNode None new_memstorage.
+
+(* a node-local history: any list of inputs with the draws each may consume *)
+Fixpoint node_run (n : nstate) (ins : list (ninput * list N)) : res nstate :=
+  match ins with
+  | [] => Ok n
+  | (i, d) :: rest => do x <- node_step n i d; node_run (fst x) rest
+  end.
